@@ -940,9 +940,10 @@ func TestC02(t *testing.T) {
 	rapidCases(h, "renegotiated-limit", env.PerShard(env.Pick(4000, 160000)), func(rt *rapid.T) renegCase {
 		c := renegCase{First: rapid.SampledFrom([]uint32{4096, 8192, 65536, 1 << 20}).Draw(rt, "first"),
 			Second:  rapid.SampledFrom([]uint32{200, 4096, 8192, 65536, 1 << 20}).Draw(rt, "second"),
-			PauseUs: rapid.SampledFrom([]int{0, 50, 300, 1000, 3000}).Draw(rt, "pause"), Probes: rapid.IntRange(0, 3).Draw(rt, "probes")}
+			PauseUs: rapid.SampledFrom([]int{0, 50, 300, 1000, 3000}).Draw(rt, "pause"), Probes: rapid.IntRange(0, 3).Draw(rt, "probes"),
+			Refused: rapid.IntRange(0, 3).Draw(rt, "refused") == 0}
 		lo, hi := min(c.First, c.Second), max(c.First, c.Second)
-		c.Size = rapid.SampledFrom([]uint32{c.Second + 1, c.Second, c.Second - 1, lo + 1, hi, hi + 1, (lo + hi) / 2, 6, 7, 11, 23, 24}).Draw(rt, "size")
+		c.Size = rapid.SampledFrom([]uint32{c.Second + 1, c.Second, c.Second - 1, c.First + 1, c.First, lo + 1, hi, hi + 1, (lo + hi) / 2, 6, 7, 11, 23, 24}).Draw(rt, "size")
 		return c
 	}, func(c renegCase) *fail {
 		h.Case(evid.HashJSON(c), c.First != c.Second && c.Size > min(c.First, c.Second) && c.Size <= max(c.First, c.Second), "renegotiated-limit")
